@@ -8,7 +8,7 @@
     the model). *)
 From Coq Require Import List ZArith Bool Arith Lia.
 From RV Require Import Model.JobMachine Proofs.JobBase Proofs.JobRes Proofs.JobRes3
-  Proofs.JobOnce Proofs.JobOnce2 Proofs.JobOnce3.
+  Proofs.JobOnce Proofs.JobOnce2 Proofs.JobOnce3 Proofs.JobCtx.
 Import ListNotations.
 Open Scope list_scope.
 
@@ -39,6 +39,16 @@ Theorem C06_submitter_stays_visible : forall c ops j x,
   In ((jkey x, jctx x), j) (pending (run c ops)) \/ exists o, In ((jkey x, jctx x), o) (recorded (run c ops)).
 Proof. intros c ops j x Hs. exact (k_cov _ (K_run c Hs ops) j x). Qed.
 
+(** A job only ever collapses into a job that records provenance (so the call node whose hash the
+    duplicate adopts is really recorded). *)
+Theorem C06_twin_records_provenance : forall c ops t j,
+  pending_owner_safe (vr c) = true -> In (t, j) (subs (run c ops)) ->
+  exists xt, getj (run c ops) t = Some xt /\ jprov xt = true.
+Proof.
+  intros c ops t j Hs Hin. destruct (both_run c Hs ops) as [_ S].
+  destruct (S t j Hin) as (xt & xj & A & B & E & P). exists xt. split; assumption.
+Qed.
+
 (** As shipped (submitting overwrites the _pending_jobs entry, _finalize_job pops it whoever owns it):
     job 0 runs; job 1, a twin under a parent without provenance, overwrites the entry, finishes and
     pops it; job 2, an ordinary twin, finds neither a pending nor a recorded twin and runs too. *)
@@ -65,4 +75,5 @@ Proof. vm_compute. split; reflexivity. Qed.
 Print Assumptions C06_one_submitter_per_key.
 Print Assumptions C06_job_submitted_at_most_once.
 Print Assumptions C06_submitter_stays_visible.
+Print Assumptions C06_twin_records_provenance.
 Print Assumptions C06_refuted_as_shipped.
